@@ -111,8 +111,11 @@ def quiescentOk (tr : List Item) : Bool := accepts qStep {} tr
 structure ShSt where
   asked : Bool := false            -- an accepted `shutdown()` has not completed yet
   savedAsked : Bool := false
+  askedInProc : Bool := false      -- … and it was called from inside the processor
+  savedAskedInProc : Bool := false
   inProc : Bool := false           -- between `proc` and `procRet`
   procPending : Bool := false
+  stopCalled : Bool := false       -- the application called `stop()` in this step
   proc : ProcSt := {}
   lc : Option Int := none          -- last committed offset, as acknowledged so far
   reqs : List (Nat × Int) := []    -- commit requests issued: (id, offset)
@@ -121,30 +124,42 @@ structure ShSt where
 
 instance : HasBad ShSt := ⟨ShSt.bad⟩
 
-def shStep (group : Bool) (m0 : ShSt) (x : Item) : ShSt :=
+/-- `inproc = false`: the monitor proper (a processor Deferred cancelled by a `shutdown()` that was
+    called from inside that very processor call is NOT judged here).  `inproc = true`: judges only that. -/
+def shStep (group : Bool) (inproc : Bool) (m0 : ShSt) (x : Item) : ShSt :=
   let m := { m0 with proc := procTrack m0.proc x }
   match x with
-  | .ev .shutdown => { m with asked := true, savedAsked := m.asked }
-  | .ob (.act .shutdown) => { m with asked := true, savedAsked := m.asked }
-  | .ob .shutdownRejected => { m with asked := m.savedAsked }
-  | .ob (.proc _) => if m.asked && !m.inProc then { m with bad := true } else { m with inProc := true }
+  | .ev .shutdown => { m with asked := true, savedAsked := m.asked, askedInProc := false, savedAskedInProc := m.askedInProc, stopCalled := false }
+  | .ob (.act .shutdown) => { m with asked := true, savedAsked := m.asked, askedInProc := true, savedAskedInProc := m.askedInProc }
+  | .ev .stop => { m with stopCalled := true }
+  | .ob (.act .stop) => { m with stopCalled := true }
+  | .ev (.fetchOk _ _) => { m with stopCalled := false }
+  | .ev (.procErr _ _) => { m with procPending := false, stopCalled := false }
+  | .ev .procOk => { m with procPending := false, stopCalled := false }
+  | .ev (.commitOk k) => (match m.reqs.lookup k with | some off => { m with lc := some off, stopCalled := false } | none => { m with stopCalled := false })
+  | .ev _ => { m with stopCalled := false }
+  | .ob .shutdownRejected => { m with asked := m.savedAsked, askedInProc := m.savedAskedInProc }
+  | .ob (.proc _) => if m.asked && !m.inProc && !inproc then { m with bad := true } else { m with inProc := true }
   | .ob (.procRet r) => { m with inProc := false, procPending := (r == .defer) }
-  | .ob .procCancel => { m with procPending := false }
-  | .ev .procOk => { m with procPending := false }
-  | .ev (.procErr _ _) => { m with procPending := false }
+  -- a graceful shutdown waits for the processor; only an explicit `stop()` may cancel it
+  | .ob .procCancel =>
+    if m.asked && !m.stopCalled && (m.askedInProc == inproc) then { m with bad := true } else { m with procPending := false }
   | .ob (.commitReq k off) => { m with reqs := (k, off) :: m.reqs }
-  | .ev (.commitOk k) => (match m.reqs.lookup k with | some off => { m with lc := some off } | none => m)
   | .ob (.probe _ lc) => { m with lc := lc }
   | .ob (.shutdownFired (.ok v)) =>
     -- waited for the processor; reports the last processed offset; with a group, that offset is committed
-    if m.procPending then { m with bad := true }
+    if inproc then { m with asked := false }
+    else if m.procPending then { m with bad := true }
     else if v != m.proc.processed then { m with bad := true }
     else if group && m.proc.processed.isSome && m.proc.processed != m.lc then { m with bad := true }
     else { m with asked := false }
   | .ob (.shutdownFired (.err _)) => { m with asked := false }
   | _ => m
 
-def shutdownOk (group : Bool) (tr : List Item) : Bool := accepts (shStep group) {} tr
+def shutdownOk (group : Bool) (tr : List Item) : Bool := accepts (shStep group false) {} tr
+
+/-- A `shutdown()` called from inside the processor waits for the Deferred that call returns. -/
+def shutdownInprocOk (group : Bool) (tr : List Item) : Bool := accepts (shStep group true) {} tr
 
 /-! ### No call into the consumer ends in an exception the API does not document -/
 
